@@ -17,6 +17,17 @@ CHECKS = {
    note=BASE_NOTE + 'Model of symmetry.py is hand-written (tied by correspondence, not verified); Fourier branch modelled by the DFT identity g[j]=(f[j]+f[-j mod m])/2.',
    technique='Coq proof over list-of-rows model + vm_compute correspondence + property search on implementation',
    design='DESIGN.md §3 C06'),
+ 'C05': dict(
+   text=('Theorems (Coq, every shape with >= 3 rows, every parity, any half-image transform T): the Transform pipeline that '
+         'transforms only the quadrants symmetry leaves distinct equals the reassembly of T applied to the four identically '
+         'oriented symmetrised quadrants (symmetry_axis None/0/1/(0,1) and spellings, every mask); result shape; pixel formula of '
+         'the reassembly (central column from the right-hand, central row from the lower quadrants); [] treated as None. Tie: '
+         'correspondence of the model pipeline (Q instance, vm_compute) with abel.Transform where the eight method functions are '
+         'replaced by an exact probe transform. Search on the real methods: assembly from the method\'s own half-image transforms, '
+         'integer dtype, option routing (spies), centring delegation, linbasex/rbasex pass-through.'),
+   note=BASE_NOTE + 'Hand-written model of transform.py:462-573 tied by correspondence; origin finding / sub-pixel centring are delegated to C12/C13.',
+   technique='Coq proof over list-of-rows model + vm_compute correspondence with probe transform + property search on implementation',
+   design='DESIGN.md §3 C05'),
  'C20': dict(
    text=('Theorems (Coq): over the whole finite request space all_requests of model/Dispatch.v (315 cells: function/Transform x '
          '10 methods x 3 directions x named shape classes x out-of-set option values) every request raises or is answered '
